@@ -463,6 +463,10 @@ namespace xtl
     private:
 
         int compare_impl(const_pointer s1, size_type count1, const_pointer s2, size_type count2) const noexcept;
+        template <class It>
+        bool is_inside(It) const noexcept;
+        bool is_inside(pointer s) const noexcept;
+        bool is_inside(const_pointer s) const noexcept;
         void update_null_termination() noexcept;
         void check_index(size_type pos, size_type size, const char* what) const;
         void check_index_strict(size_type pos, size_type size, const char* what) const;
@@ -886,17 +890,20 @@ namespace xtl
                                                            size_type count) -> self_type&
     {
         check_index_strict(pos, other.size(), "xbasic_fixed_string::assign");
-        size_type copy_count = std::min(other.size() - pos, count);
-        m_storage.set_size(error_policy::check_size(copy_count));
-        traits_type::copy(data(), other.data() + pos, copy_count);
+        size_type copy_count = error_policy::check_size(std::min(other.size() - pos, count));
+        // other may be *this: move the characters before the new terminator is written
+        traits_type::move(data(), other.data() + pos, copy_count);
+        m_storage.set_size(copy_count);
         return *this;
     }
 
     template <class CT, std::size_t N, int ST, template <std::size_t> class EP, class TR>
     inline auto xbasic_fixed_string<CT, N, ST, EP, TR>::assign(const_pointer s, size_type count) -> self_type&
     {
-        m_storage.set_size(error_policy::check_size(count));
-        traits_type::copy(data(), s, count);
+        count = error_policy::check_size(count);
+        // s may point into this string: move the characters before the new terminator is written
+        traits_type::move(data(), s, count);
+        m_storage.set_size(count);
         return *this;
     }
 
@@ -917,8 +924,10 @@ namespace xtl
     template <class InputIt>
     inline auto xbasic_fixed_string<CT, N, ST, EP, TR>::assign(InputIt first, InputIt last) -> self_type&
     {
-        m_storage.set_size(error_policy::check_size(static_cast<size_type>(std::distance(first, last))));
+        size_type count = error_policy::check_size(static_cast<size_type>(std::distance(first, last)));
+        // [first, last) may lie inside this string: copy (forwards) before the new terminator is written
         std::copy(first, last, data());
+        m_storage.set_size(count);
         return *this;
     }
 
@@ -1224,6 +1233,12 @@ namespace xtl
     template <class CT, std::size_t N, int ST, template <std::size_t> class EP, class TR>
     auto xbasic_fixed_string<CT, N, ST, EP, TR>::insert(size_type index, const_pointer s, size_type count) -> self_type&
     {
+        if (count != size_type(0) && is_inside(s))
+        {
+            // the characters to insert are part of this string: shifting the tail would move them
+            const self_type tmp(s, count);
+            return insert(index, tmp.data(), count);
+        }
         check_index_strict(index, size(), "xbasic_fixed_string::insert");
         size_type old_size = size();
         size_type new_size = error_policy::check_add(old_size, count);
@@ -1289,6 +1304,11 @@ namespace xtl
     template <class InputIt>
     auto xbasic_fixed_string<CT, N, ST, EP, TR>::insert(const_iterator pos, InputIt first, InputIt last) -> iterator
     {
+        if (first != last && is_inside(first))
+        {
+            const self_type tmp(first, last);
+            return insert(pos, tmp.cbegin(), tmp.cend());
+        }
         if (cbegin() <= pos && pos <= cend())
         {
             size_type index = static_cast<size_type>(pos - cbegin());
@@ -1562,6 +1582,12 @@ namespace xtl
     auto xbasic_fixed_string<CT, N, ST, EP, TR>::replace(size_type pos, size_type count,
                                                      const_pointer cstr, size_type count2) -> self_type&
     {
+        if (count2 != size_type(0) && is_inside(cstr))
+        {
+            // the replacement is part of this string: moving the tail would move it
+            const self_type tmp(cstr, count2);
+            return replace(pos, count, tmp.data(), count2);
+        }
         check_index_strict(pos, size(), "xbasic_fixed_string::replace");
         size_type erase_count = std::min(count, size() - pos);
         size_type new_size = error_policy::check_add(size() - erase_count, count2);
@@ -1662,6 +1688,11 @@ namespace xtl
     inline auto xbasic_fixed_string<CT, N, ST, EP, TR>::replace(const_iterator first, const_iterator last,
                                                             InputIt first2, InputIt last2) -> self_type&
     {
+        if (first2 != last2 && is_inside(first2))
+        {
+            const self_type tmp(first2, last2);
+            return replace(first, last, tmp.cbegin(), tmp.cend());
+        }
         if (cbegin() <= first && first <= last && last <= cend())
         {
             size_type pos = static_cast<size_type>(first - cbegin());
@@ -2001,6 +2032,27 @@ namespace xtl
         {
             return res;
         }
+    }
+
+    template <class CT, std::size_t N, int ST, template <std::size_t> class EP, class TR>
+    template <class It>
+    inline bool xbasic_fixed_string<CT, N, ST, EP, TR>::is_inside(It) const noexcept
+    {
+        // iterators of another container cannot refer to this string's buffer
+        return false;
+    }
+
+    template <class CT, std::size_t N, int ST, template <std::size_t> class EP, class TR>
+    inline bool xbasic_fixed_string<CT, N, ST, EP, TR>::is_inside(pointer s) const noexcept
+    {
+        return is_inside(const_pointer(s));
+    }
+
+    template <class CT, std::size_t N, int ST, template <std::size_t> class EP, class TR>
+    inline bool xbasic_fixed_string<CT, N, ST, EP, TR>::is_inside(const_pointer s) const noexcept
+    {
+        // true when s points at one of the N + 1 characters of this string's own buffer
+        return !std::less<const_pointer>()(s, data()) && !std::less<const_pointer>()(data() + N, s);
     }
 
     template <class CT, std::size_t N, int ST, template <std::size_t> class EP, class TR>
